@@ -15,7 +15,7 @@ ASSUMPTIONS = [
     'db stub: get_stored_blobs(is_mine, is_network_blob) returns the not-yet-deleted removable blobs of that class in a '
     'fixed order and records its arguments; get_stored_blob_disk_usage returns fixed per-class base usage plus the sizes '
     'of blobs not yet deleted; own blobs are only reachable through is_mine=True (asserted never requested)',
-    'blob sizes and usages below 2^50 bytes; limits 0..10^6 MB',
+    'blob sizes and usages below 2^50 bytes; limits 0..10^6 MB; between passes each class may grow by up to 2^45 bytes',
 ]
 OUTSIDE = ['the SQL queries of SQLiteStorage that compute usage and choose candidates', 'more removable blobs than the bound']
 
@@ -114,6 +114,11 @@ def run(vm, k, passes):
     dsm = DiskSpaceManager(Cfg(content_limit, network_limit), db, bm)
     any_deleted = False
     for p in range(passes):
+        if p > 0:
+            # between passes the node keeps downloading: usage of both classes may grow by any amount
+            base['content_storage'] = base['content_storage'] + vm.new_int('content_growth', 0, 2 ** 45)
+            base['network_storage'] = base['network_storage'] + vm.new_int('network_growth', 0, 2 ** 45)
+            sufficed = False
         usage = vm.await_(db.get_stored_blob_disk_usage())
         before = {False: used_mb(usage, False), True: used_mb(usage, True)}
         candidates = {False: [b for b in blobs[False] if not b[2]], True: [b for b in blobs[True] if not b[2]]}
